@@ -4,6 +4,7 @@
 // (double or float), chosen by argv[1].
 #include <shark/LinAlg/CachedMatrix.h>
 #include "common.hpp"
+#include "c09_state.hpp"
 #include <algorithm>
 
 // synthetic base matrix: entry(i,j) = base(perm[i], perm[j]), base(a,b) = a*1000+b+1
@@ -27,24 +28,7 @@ struct Probe: public shark::CachedMatrix<SynthMatrix<T> >{
 	shark::LRUCache<T>& cache(){ return this->m_cache; }
 };
 
-template<class T>
-std::string showLine(T const* p, std::size_t len){
-	std::string s = "[";
-	for(std::size_t c = 0; c != len; ++c){ if(c) s += ","; s += vh::intval(p[c]); }
-	return s + "]";
-}
-
-template<class T>
-std::string showState(Probe<T>& m, std::size_t n){
-	shark::LRUCache<T>& c = m.cache();
-	std::ostringstream os;
-	os << "size=" << c.size() << " cached=" << c.cachedLines() << " lru=[";
-	for(std::size_t p = 0; p != c.cachedLines(); ++p){ if(p) os << ", "; os << c.listIndex(p); }
-	os << "]";
-	for(std::size_t i = 0; i != n; ++i)
-		os << " " << showLine(c.getLinePointer(i), c.lineLength(i));
-	return os.str();
-}
+using c09::showLine;
 
 // independent property oracle (does not use the Lean model): accounting, capacity,
 // and -- as long as no raw cache op has overwritten lines -- truth of every entry
@@ -52,21 +36,14 @@ template<class T>
 std::string oracle(Probe<T>& m, SynthMatrix<T>& base, std::size_t n, bool pure){
 	shark::LRUCache<T>& c = m.cache();
 	std::ostringstream os;
-	std::size_t total = 0, lines = 0;
-	for(std::size_t i = 0; i != n; ++i){
+	for(std::size_t i = 0; i != n && pure; ++i){
 		std::size_t len = c.lineLength(i);
-		total += len; if(len) ++lines;
-		if(pure){
-			if(len > n) os << " !oracle line-longer-than-matrix " << i;
-			T const* p = c.getLinePointer(i);
-			for(std::size_t k = 0; k < len && k < n; ++k)
-				if(p[k] != base.entry(i,k)){ os << " !oracle wrong-entry row=" << i << " col=" << k; break; }
-		}
+		if(len > n) os << " !oracle line-longer-than-matrix " << i;
+		T const* p = c.getLinePointer(i);
+		for(std::size_t k = 0; k < len && k < n; ++k)
+			if(p[k] != base.entry(i,k)){ os << " !oracle wrong-entry row=" << i << " col=" << k; break; }
 	}
-	if(total != c.size()) os << " !oracle size-accounting " << total << "!=" << c.size();
-	if(lines != c.cachedLines()) os << " !oracle cached-lines " << lines << "!=" << c.cachedLines();
-	if(c.size() > c.maxSize()) os << " !oracle over-capacity " << c.size() << ">" << c.maxSize();
-	return os.str();
+	return os.str() + c09::accounting(c, n);
 }
 
 template<class T>
@@ -75,7 +52,7 @@ int run(){
 	std::size_t n = 0, ctr = 0;
 	// the two most recently requested rows (most recent first), for the
 	// "stay valid while a third is fetched if capacity allows" clause
-	long recent[2] = {-1, -1};
+	c09::RecentRows<T> rr; c09::BufferIds<T> ids;
 	SynthMatrix<T>* base = new SynthMatrix<T>(0);
 	Probe<T>* m = new Probe<T>(base, 0);
 	std::string line;
@@ -89,19 +66,11 @@ int run(){
 		std::string r;
 		if(op == "new" && a.size() == 2){
 			delete m; delete base;
-			n = a[0]; base = new SynthMatrix<T>(n); m = new Probe<T>(base, a[1]); pure = true; ctr = 0; recent[0] = recent[1] = -1;
+			n = a[0]; base = new SynthMatrix<T>(n); m = new Probe<T>(base, a[1]); pure = true; ctr = 0; rr.forget(); ids.reset();
 		}else if(op == "row" && a.size() == 2){
-			// before the fetch: remember pointers/lengths of the two most recent rows
-			T const* rp[2] = {0, 0}; std::size_t rl[2] = {0, 0}; bool must[2] = {false, false};
-			bool third = recent[0] >= 0 && recent[1] >= 0 && (long)a[0] != recent[0] && (long)a[0] != recent[1] && recent[0] != recent[1];
-			if(third){
-				for(int q = 0; q != 2; ++q){ rp[q] = m->cache().getLinePointer(recent[q]); rl[q] = m->cache().lineLength(recent[q]); }
-				// both still cached and everything fits: capacity allows keeping them
-				if(rl[0] && rl[1] && rl[0] + rl[1] + a[1] <= m->cache().maxSize()) must[0] = must[1] = true;
-			}
+			rr.before(m->cache(), a[0], a[1]);
 			T* p = m->row(a[0], 0, a[1]);
-			for(int q = 0; q != 2; ++q) if(must[q] && (m->cache().lineLength(recent[q]) != rl[q] || m->cache().getLinePointer(recent[q]) != rp[q])){ r = "!oracle recent-row-invalidated "; }
-			if((long)a[0] != recent[0]){ recent[1] = recent[0]; recent[0] = (long)a[0]; }
+			r = rr.after(m->cache(), a[0]);
 			// the returned pointer addresses the whole line
 			r = "R=" + showLine(p, m->cache().lineLength(a[0])) + " " + r;
 			if(pure) for(std::size_t c = 0; c < a[1]; ++c)
@@ -117,28 +86,28 @@ int run(){
 		}else if(op == "entry" && a.size() == 2){
 			r = "R=" + vh::intval(m->entry(a[0], a[1])) + " ";
 		}else if(op == "flip" && a.size() == 2){
-			m->flipColumnsAndRows(a[0], a[1]); recent[0] = recent[1] = -1;
+			m->flipColumnsAndRows(a[0], a[1]); rr.forget();
 		}else if(op == "maxidx" && a.size() == 1){
-			m->setMaxCachedIndex(a[0]); recent[0] = recent[1] = -1;
+			m->setMaxCachedIndex(a[0]); rr.forget();
 		}else if(op == "clear" && a.empty()){
-			m->clear(); recent[0] = recent[1] = -1;
+			m->clear(); rr.forget();
 		}else if((op == "get" || op == "resize") && a.size() == 2){
 			std::size_t old = m->cache().lineLength(a[0]);
-			pure = false; recent[0] = recent[1] = -1;
+			pure = false; rr.forget();
 			T* p;
 			if(op == "get") p = m->cache().getCacheLine(a[0], a[1]);
 			else { m->cache().resizeLine(a[0], a[1]); p = m->cache().getLinePointer(a[0]); }
 			for(std::size_t c = old; c < a[1]; ++c) p[c] = T(ctr*512 + a[0]*40 + c);
 		}else if(op == "mark" && a.size() == 1){
-			m->cache().markLineForDeletion(a[0]); recent[0] = recent[1] = -1;
+			m->cache().markLineForDeletion(a[0]); rr.forget();
 		}else if(op == "swap" && a.size() == 2){
-			m->cache().swapLineIndices(a[0], a[1]); recent[0] = recent[1] = -1;
+			m->cache().swapLineIndices(a[0], a[1]); rr.forget();
 		}else{ std::cout << "bad-op\n"; continue; }
 		std::string orc = oracle(*m, *base, n, pure);
 		// oracle remarks go last so that the comparison with the model can strip them
 		std::size_t q = r.find("!oracle");
 		if(q != std::string::npos){ orc = " " + r.substr(q) + orc; r = r.substr(0, q); }
-		std::cout << r << showState(*m, n) << orc << "\n";
+		std::cout << r << c09::showState(m->cache(), n, ids) << orc << "\n";
 	}
 	delete m; delete base;
 	return 0;
